@@ -34,6 +34,16 @@ func VerifC18() {
 	// partitions hosted elsewhere: the loop takes its locks but has no raft work to do
 	ds := verifDataset(local, 1, [][]uint64{{7}, {7}, {7}})
 	p1, p2, p3 := ds.partitions[0], ds.partitions[1], ds.partitions[2]
+	replicaless := verifrt.Bound("replicaless", 0) == 1
+	if replicaless {
+		// partitions without any replica yet: the loop's node-change handler falls back to
+		// the address book (clusterConn.NodeIds) to decide who may modify them
+		rl := verifDataset(local, 1, [][]uint64{{}, {}})
+		rl.meta.ReplicationFactor = 0
+		a.watch(rl.partitions[0])
+		a.watch(rl.partitions[1])
+		verifrt.Quiesce()
+	}
 
 	catalogue := verifrt.Choose("catalogue", 3)
 	membership := verifrt.Choose("membership", 3)
@@ -60,7 +70,13 @@ func VerifC18() {
 			conn.AddNode(3, "n3:0")
 		case 2:
 			conn.AddNode(2, "n2:0")
-			conn.RemoveNode(2)
+			if replicaless {
+				// (removal would make the handler propose through a catalogue the harness does not have)
+				conn.AddNode(3, "n3:0")
+				conn.AddNode(4, "n4:0")
+			} else {
+				conn.RemoveNode(2)
+			}
 		}
 		done <- 2
 	}()
